@@ -27,7 +27,7 @@ RULE = ('seeded analytic truth motions stratified over hemisphere (N/S x E/W inc
         '~2 g; rate and increment sensors; h in {1,2,5,10,20,50} ms; horizons 5..120 s (quick) and up to a Schuler period (thorough); '
         'half of the Imu tables with their labelled columns in another order plus an unrelated column, half with stamps on an offset origin; '
         'non-trivial = anything but (lat 55, heading-only rotation, gentle speed); distinct = generator parameters'
-        ' Round 4: class of motions in which a physical quantity vanishes (level frame not rotating in inertial space - westward at the Earth-surface speed, |lat| 52..78; rest; steady straight flight) at h = 1 / 2 / 5 ms.')
+        ' Round 4: class of motions in which a physical quantity vanishes (level frame not rotating in inertial space - westward at the Earth-surface speed, |lat| 52..78; rest; steady straight flight) at h = 1 / 2 / 5 ms. Round 6: class polar - starts 5..170 km from either pole (|lat| 88.5..89.95, closest approach >= 3 km), cos(lat) down to 5e-4.')
 ASSUMPTIONS = ['truth kinematics written by hand from textbook formulas, checked at start-up against 6th-order finite differences '
                '(disagreement => inconclusive)', 'a limit cannot be observed: restated as the bounded halving ladder above (K = 6; the true '
                'ratio of a method of order p >= 1 is <= 2)', 'longitudes compared modulo 360 (the integrator does not wrap; not part of C01)']
@@ -65,12 +65,13 @@ def cases(seed, tier):
         out.append(dict(seed=int(seed) * 1000003 + i, cls=f'{st}-{"S" if south else "N"}', h=h, T=T, sensor=st, south=south,
                         rungs=2 if tier == 'quick' else 3, cost=T / h / 1000))
     # regimes in which a physical quantity vanishes (see truth_motion.special_motion), at the fine end of the interval range
-    kinds = ['inertial_null', 'inertial_null', 'rest', 'steady']
-    for i in range(12 if tier == 'quick' else 160):
+    # ... and the polar end of "any initial position" (Round 5/6: a clamp on cos(lat) close to a pole)
+    kinds = ['inertial_null', 'polar', 'rest', 'polar', 'inertial_null', 'polar', 'steady', 'polar']
+    for i in range(24 if tier == 'quick' else 240):
         st = 'rate' if i % 2 == 0 else 'increment'
         h = [0.001, 0.002, 0.005][i % 3]
         out.append(dict(seed=int(seed) * 1000003 + 95000 + i, cls=f'{st}-{"S" if i % 4 >= 2 else "N"}', h=h, T=float([40.0, 60.0, 100.0][i % 3]), sensor=st, south=i % 4 >= 2,
-                        rungs=2, special=kinds[i % 4], cost=60))
+                        rungs=2, special=kinds[i % 8], cost=60))
     if tier == 'thorough':
         for i in range(6):
             out.append(dict(seed=int(seed) * 1000003 + 90000 + i, cls=f'{"rate" if i % 2 == 0 else "increment"}-{"S" if i % 4 >= 2 else "N"}',
